@@ -69,60 +69,74 @@ def atom_may_hold(atom, ch):
     return ch not in atom.excludes
 
 
-def refine_suffix(it, h, a):
-    """fork: h does not end with a (0) | h == a (1) | h == h' + a with h' non-empty (2)"""
-    c = it.ctx
-    key = (h.name, a.name)
-    facts = getattr(c, 'not_suffix', set())
-    if key in facts:
-        return 0
-    if key in getattr(c, 'not_equal', set()):
-        k = [0, 2][c.choice('refine:%s:endswith-properly:%s' % (h.name, a.name), 2)]
-    else:
-        k = c.choice('refine:%s:endswith:%s' % (h.name, a.name), 3)
-    if k == 0:
-        facts.add(key)
-        c.not_suffix = facts
-        return 0
-    c.suffix_refinements = getattr(c, 'suffix_refinements', []) + [(h.name, a.name, k)]
-    if a.excludes - h.excludes and False:
-        raise Infeasible()
-    from .sstr import atom_len
-    import z3 as _z3
-    if k == 1:
-        if getattr(h, 'len_var', None) is not None or getattr(a, 'len_var', None) is not None:
-            c.assume_checked(atom_len(c, h) == atom_len(c, a))
-        h.resolved = [a]
-        h.sample = a.sample
-        return 1
-    rest = Atom(h.name + "'", h.excludes, (), h.first_not_digit, 'a')
-    for f in ('not_stage_prefixed',):
-        if getattr(h, f, False):
-            setattr(rest, f, True)
-    if getattr(h, 'len_var', None) is not None or getattr(a, 'len_var', None) is not None:
-        c.assume_checked(atom_len(c, h) == atom_len(c, rest) + atom_len(c, a))
-    h.resolved = [rest, a]
-    h.sample = rest.sample + a.sample
-    return 2
+def _rel(c):
+    if not hasattr(c, 'atom_relations'):
+        c.atom_relations = {}        # frozenset({x, y}) -> 'neq' | 'eq' | ('tail', longer, shorter)
+        c.not_tail = set()           # (h, a): h does not properly end with a
+    return c.atom_relations
 
 
-def refine_equal(it, h, a):
-    """fork: h != a (0) | h == a (1)"""
-    c = it.ctx
-    facts = getattr(c, 'not_equal', set())
-    if (h.name, a.name) in facts or (h.name, a.name) in getattr(c, 'not_suffix', set()):
-        return 0
-    if c.choice('refine:%s:equals:%s' % (h.name, a.name), 2) == 0:
-        facts.add((h.name, a.name))
-        c.not_equal = facts
-        return 0
-    c.suffix_refinements = getattr(c, 'suffix_refinements', []) + [(h.name, a.name, 1)]
+def _make_equal(c, h, a):
     from .sstr import atom_len
     if getattr(h, 'len_var', None) is not None or getattr(a, 'len_var', None) is not None:
         c.assume_checked(atom_len(c, h) == atom_len(c, a))
     h.resolved = [a]
     h.sample = a.sample
+    c.suffix_refinements = getattr(c, 'suffix_refinements', []) + [(h.name, a.name, 'eq')]
+
+
+def refine_equal(it, h, a):
+    """fork: h != a (0) | h == a (1); the relation is symmetric and remembered for the rest of the path"""
+    c = it.ctx
+    rel = _rel(c)
+    key = frozenset((h.name, a.name))
+    if key in rel:
+        return 1 if rel[key] == 'eq' else 0
+    if c.choice('refine:%s:equals:%s' % tuple(sorted(key)), 2) == 0:
+        rel[key] = 'neq'
+        return 0
+    rel[key] = 'eq'
+    _make_equal(c, h, a)
     return 1
+
+
+def refine_suffix(it, h, a):
+    """fork: h does not end with a (0) | h == a (1) | h == h' + a with h' non-empty (2)"""
+    c = it.ctx
+    rel = _rel(c)
+    key = frozenset((h.name, a.name))
+    r = rel.get(key)
+    if r == 'eq':
+        return 1
+    if isinstance(r, tuple):
+        return 2 if (r[1], r[2]) == (h.name, a.name) else 0      # the other one is the longer name
+    if r is None:
+        if refine_equal(it, h, a):
+            return 1
+    # now known: h != a
+    if (h.name, a.name) in c.not_tail:
+        return 0
+    if c.choice('refine:%s:endswith-properly:%s' % (h.name, a.name), 2) == 0:
+        c.not_tail.add((h.name, a.name))
+        return 0
+    from .sstr import atom_len
+    rest = Atom(h.name + "'", h.excludes, (), h.first_not_digit, 'a')
+    if getattr(h, 'not_stage_prefixed', False):
+        rest.not_stage_prefixed = True
+    if getattr(h, 'len_var', None) is not None or getattr(a, 'len_var', None) is not None:
+        c.assume_checked(atom_len(c, h) == atom_len(c, rest) + atom_len(c, a))
+    h.resolved = [rest, a]
+    h.sample = rest.sample + a.sample
+    rel[key] = ('tail', h.name, a.name)
+    c.suffix_refinements = getattr(c, 'suffix_refinements', []) + [(h.name, a.name, 'tail')]
+    return 2
+
+
+def occurs(it, hay, needle):
+    """does `needle` occur in `hay`?  (same occurrence analysis as replace_all)"""
+    marker = SStr([Lit('\x00')])
+    r = replace_all(it, hay, needle, marker)
+    return '\x00' in (r if isinstance(r, str) else ''.join(s.text for s in lift(r).segs if isinstance(s, Lit)))
 
 
 def replace_all(it, hay, old, new, *count):
